@@ -36,6 +36,7 @@ INVARIANT SendAfterCloseRaises
 INVARIANT DrainBeforeStop
 INVARIANT IterEndsCleanly
 INVARIANT NonBlockingNeverWaits
+INVARIANT FailedWriteIsNoOp
 INVARIANT ReturnsWhenDeliverable
 INVARIANT NoTrafficAfterClose
 INVARIANT Emit
@@ -89,6 +90,9 @@ def make_doubles():
                 self.close()
 
         def _send(self, msg):
+            if getattr(self.world, 'fail_send', False):
+                self.world.fail_send = False
+                raise OSError('device write failed')
             self.world.log.append((self.who, 'send', msg))
 
         def _close(self):
@@ -211,6 +215,13 @@ def replay_history(kind, autoreset, script, hist, fclosed, fq, flog):
                     if kind != 'echo':
                         sent.append((m, user_msg(m)))
                     msg.value = (msg.value + 1) % 128      # caller modifies it afterwards
+                elif op == 'send_fail':
+                    world.fail_send = True
+                    try:
+                        port.send(user_msg(100 + n))
+                        got_k = 'ok'
+                    finally:
+                        world.fail_send = False
                 elif op == 'receive':
                     r = port.receive()
                     got_k, got_v = ('none', []) if r is None else ('msg', [ident(r, kind)])
